@@ -124,6 +124,8 @@ def gen_specs(rep, tier):
             k2, els2 = second_column(kind)
             comps = U.compositions(6)
             extra = [[0, 0, 2, 2, 6], [0, 1, 1, 1, 6, 6], [0, 0, 6], [0, 3, 3, 6]]
+            if quick and kind != 'point':
+                comps = rng.sample(comps, 10)
             for cuts in comps + extra:
                 keys = KEYS[:7] if not quick else [KEYS[i] for i in (0, 1, 2, 4, 6)]
                 spec(kind, els, k2, els2, 'g', [['from_delayed', cuts]], keys)
@@ -157,13 +159,16 @@ def gen_specs(rep, tier):
                     [base, ['parquet', 'h', None]],
                     [base, ['parquet', rng.choice([None, 'g']), box]],
                     [base, ['cxp', list(KEYS[1])]],
+                    [['from_concat', rng.randint(1, 5)]],
+                    [base, ['mapid']],
                     [base, ['filter_isin', [0, 2, 3, 5]], ['cx', list(KEYS[0])]],
                 ]
                 for steps in provs:
                     keys = rng.sample(KEYS, 3 if quick else 5)
-                    spec(kind, els, k2, els2, rng.choice(['g', 'g', 'h']), steps, keys)
+                    act = 'h' if steps[-1][0] in ('from_concat', 'mapid') else rng.choice(['g', 'g', 'h'])
+                    spec(kind, els, k2, els2, act, steps, keys)
     # C. random frames, random splits, random provenance
-    for _ in range(40 if quick else 1500):
+    for _ in range(40 if quick else 800):
         kind = rng.choice(G.KINDS)
         els, k2, els2 = random_frame(rng, kind)
         n = len(els)
@@ -212,6 +217,12 @@ def apply_steps(df, steps, tmpdirs):
             X = U.dask_from_chunks(df, st[1])
         elif op == 'from_pandas':
             X = dd.from_pandas(df, npartitions=st[1])
+        elif op == 'from_concat':
+            k = st[1]
+            X = dd.concat([dd.from_pandas(df.iloc[:k], npartitions=1),
+                           dd.from_pandas(df.iloc[k:], npartitions=max(1, min(2, len(df) - k)))])
+        elif op == 'mapid':
+            X = X.map_partitions(lambda d: d.copy())
         elif op == 'filter_isin':
             X = X[X.v.isin(st[1])]
             expect = expect[expect.v.isin(st[1])] if expect is not None else None
@@ -372,8 +383,16 @@ def check_frame(ctx, X, spec, expect, ordered, index_kept):
     part_sigs = [U.frame_sig(p) for p in parts]
     bounds_rows = np.asarray(rs.bounds.values, dtype='float64')
     per_key, hit_bits = [], []
+    used_keys = []
     for key in spec['keys']:
         key = tuple(key)
+        rb = U.resolve_key(key, rtb)
+        if rb[0] == rb[2] or rb[1] == rb[3]:
+            # the property is about boxes of positive area (an omitted end can resolve to
+            # the given one); zero-extent boxes are C01 / C04's business
+            rep.count('zero-area-key-skipped')
+            continue
+        used_keys.append(key)
         xs, ys = U.key_slices(key)
         pr = ref_q.cx[xs, ys]
         box = U.resolve_key(key, rtb)
@@ -446,7 +465,7 @@ def check_frame(ctx, X, spec, expect, ordered, index_kept):
                         repr(spec['keys'])))
 
     # ---- the model
-    if len(per_key) == len(spec['keys']):
+    if len(per_key) == len(used_keys):
         rows_by_part, k = [], 0
         for p in parts:
             rows = []
@@ -456,7 +475,7 @@ def check_frame(ctx, X, spec, expect, ordered, index_kept):
                 k += 1
             rows_by_part.append(rows)
         ctx.cases.append((rows_by_part, [C.Nat(x) for x in keys_arr],
-                          [U.ckey(tuple(key)) for key in spec['keys']]))
+                          [U.ckey(tuple(key)) for key in used_keys]))
         ctx.results.append(([U.cbox(r) for r in pb], U.cbox(tb), [C.fnum(v, U.SCALE) for v in ftb],
                             per_key))
         ctx.metas.append(spec)
